@@ -223,7 +223,21 @@ fn do_eval<'v>(
     let ticks = eval.get_total_tick_count();
     match r {
         Ok(v) => log(json!(["r", file, idx, "ok", canon::encode(v, cfg.sharing), depth, ticks])),
-        Err(e) => log(json!(["r", file, idx, "err", err_json(&e, cfg.full_errors), depth, ticks])),
+        Err(e) => {
+            log(json!(["r", file, idx, "err", err_json(&e, cfg.full_errors), depth, ticks]));
+            if cfg.probe.is_some() {
+                // the module must remain usable from the host after a failed evaluation
+                let module = eval.module();
+                let names: Vec<String> = module.names().map(|n| n.as_str().to_owned()).collect();
+                let mut bound = 0;
+                for n in &names {
+                    if module.get(n).is_some() {
+                        bound += 1;
+                    }
+                }
+                log(json!(["module_probe", idx, names.len(), bound]));
+            }
+        }
     }
 }
 
